@@ -130,13 +130,23 @@ def make_objects(pk, prior, bake=None):
         "photon_collection": [("vp.cprobes.enc", "p1", {"slot": 0, "a": c["a"], "b": 2.0, "v": [3.0, 4.0]}, True)],
         "charge_generation": [("vp.cprobes.mem", "m1", margs, True)],
         "charge_collection": [("vp.cprobes.mem", "m2", {"inc": 0.25, "lst": [1.0]}, bool(c.get("en2", False)))],
+        "charge_measurement": [("props.c06_isolation.clk", "clk", {}, True)],
     })
     return det, pipe
+
+
+def clk(detector):
+    """model: makes the signal depend on the clock of the step (a run whose readout differs from the standalone exposure's
+    in its times or its start time then differs in its data)"""
+    if detector.signal._array is not None:
+        detector.signal.array = detector.signal.array + 1e-3 * (8.0 * float(detector.time_step) + float(detector.absolute_time))
 
 
 def make_readout(ro):
     if ro == "1":
         return mk.readout([1.0])
+    if ro == "1s":                                   # one readout, the exposure starts at 0.5
+        return mk.readout([1.0], start_time=0.5)
     if ro == "2d":
         return mk.readout([1.0, 2.0], non_destructive=False)
     return mk.readout([1.0, 3.0], non_destructive=True)
@@ -194,6 +204,10 @@ def variants(space):
         return out
     if space == "rtimes":
         return [["id"], ["rev"]]                   # (the fault is triggered by a model argument: not applicable here)
+    if space == "seqincT":
+        # + the SAME Observation object run a second time after the caller changed the configured values of both swept
+        #   settings: every run of the second call is a standalone exposure of the NEW configuration
+        return [["id"], ["rev"], ["fault", 0], ["fault", 1], ["rerun-edit"]]
     return [["id"], ["rev"], ["fault", 0], ["fault", 1]]
 
 
@@ -229,10 +243,12 @@ def enumerate_cases(tier, seed):
     cases = []
     for pk in pks:
         for prior in priors:
-            for ro in ros:
+            for ro in tuple(ros) + ("1s",):
                 for space in ("inc3", "incxa", "seqincT", "custom", "seqen2", "seqlst", "rtimes"):
-                    if space == "rtimes" and ro != "1":
-                        continue                    # the swept times replace the readout: one base readout is enough
+                    if ro == "1s" and space != "rtimes":
+                        continue                    # (the start time matters where the readout itself is swept)
+                    if space == "rtimes" and ro not in ("1", "1s"):
+                        continue                    # the swept times replace the readout: one base readout per start time
                     if space == "seqlst" and pk not in ("lst", "both"):
                         continue                    # only these pipelines have the list argument
                     if not thorough and pk == "lst" and space != "seqlst":
@@ -279,12 +295,12 @@ def _legacy_of(cases):
 
 
 def expected_size(tier, seed):
-    nvar = 15 + 3 * 4
+    nvar = 15 + 3 * 4 + 1
     # legacy cases: (pk in mem/both) x priors x readouts x variants of the five scalar spaces
     nleg = 2 * (4 if tier == "thorough" else 2) * (3 if tier == "thorough" else 2) * sum(len(variants(sp)) for sp in LEGACY_SPACES)
     if tier == "thorough":
-        return 4 * 4 * 3 * 2 * (nvar + 4) + 2 * 4 * 3 * 2 * 4 + 4 * 4 * 1 * 2 * 2 + 4 * 4 * 6 + 16 + 16 + 64 + 2 + 2 + nleg
-    return 2 * 2 * 2 * 2 * (nvar + 4) + 2 * 2 * 2 * 2 * 4 + 2 * 2 * 1 * 2 * 2 + 4 * 2 * 6 + 1 + 4 + 32 + 2 + 2 + nleg
+        return 4 * 4 * 3 * 2 * (nvar + 4) + 2 * 4 * 3 * 2 * 4 + 4 * 4 * 2 * 2 * 2 + 4 * 4 * 6 + 16 + 16 + 64 + 2 + 2 + nleg
+    return 2 * 2 * 2 * 2 * (nvar + 4) + 2 * 2 * 2 * 2 * 4 + 2 * 2 * 2 * 2 * 2 + 4 * 2 * 6 + 1 + 4 + 32 + 2 + 2 + nleg
 
 
 # ---------------------------------------------------------------- the check
@@ -388,7 +404,13 @@ def run_obs(case):
                         arr = np.asarray(sub.transpose("time", "y", "x").values, dtype=float)
                         arr = arr[[t for t in range(arr.shape[0]) if not np.isnan(arr[t]).all()]]
                     else:
-                        sub = da.isel(time=[i])
+                        # (entries are labelled with the swept tuples, in ascending order: select by label)
+                        labs = [tuple(float(x) for x in (lab if isinstance(lab, (tuple, list, np.ndarray)) else [lab]))
+                                for lab in da.coords["time"].values.tolist()]
+                        pos = [p for p, lab in enumerate(labs) if lab == tuple(float(x) for x in elem["rt"])]
+                        if len(pos) != 1:
+                            raise Problem("label-count", f"{len(pos)} entries labelled time={elem['rt']} (labels {labs})")
+                        sub = da.isel(time=pos)
                         if ex == "dask":
                             sub = sub.compute()
                         arr = np.asarray(sub.transpose("time", "y", "x").values, dtype=float)
@@ -402,17 +424,20 @@ def run_obs(case):
                 sel = sel.compute()
             return entry_arrays(sel, [v for v in VARS if v in ds])
 
-        def compare_all(ds, skip_poisoned, tag):
+        def compare_all(ds, skip_poisoned, tag, base=None):
             nonlocal ncompared
             for i, elem in enumerate(elems):
+                if base:
+                    elem = dict(base, **elem)
                 if skip_poisoned and poison is not None and elem.get("inc", configured()["inc"]) == poison:
                     continue
                 if "rt" in elem:
-                    want = standalone(pk, prior, ro, {}, readout=mk.readout(list(elem["rt"])))
+                    want = standalone(pk, prior, ro, {}, readout=mk.readout(list(elem["rt"]),
+                                                                            start_time=0.5 if ro == "1s" else 0.0))
                 else:
                     want = standalone(pk, prior, ro, elem)
                 try:
-                    got = entry_of(ds, i, elem)
+                    got = entry_of(ds, i, elems[i])
                 except Problem as p:
                     bad("entry-" + p.code, f"{tag}: cannot read the entry of element {elem}: {p.text}")
                     return
@@ -423,11 +448,11 @@ def run_obs(case):
                     bad("run-differs-from-standalone", f"{tag}: run with {elem} (others as configured): {d}")
                     return
 
-        before = snapshot.snapshot([det, pipe, readout])
+        held = {"before": snapshot.snapshot([det, pipe, readout])}
 
         def check_caller(tag):
             after = snapshot.snapshot([det, pipe, readout])
-            d = snapshot.diff(before, after, ignore=IGNORE)
+            d = snapshot.diff(held["before"], after, ignore=IGNORE)
             if d:
                 bad("caller-changed", f"{tag}: the caller's objects changed: {snapshot.fmt(d)}", where=_where(d[0][0]))
             return not d
@@ -462,6 +487,24 @@ def run_obs(case):
                     else:
                         raise
                 ok = check_caller("after computing the result") and ok
+            if variant[0] == "rerun-edit" and raised is None and ok:
+                newc = {"inc": configured()["inc"] + 40.0, "T": configured()["T"] + 40.0}
+                pipe.charge_generation.m1.arguments["inc"] = newc["inc"]
+                det.environment.temperature = newc["T"]
+                held["before"] = snapshot.snapshot([det, pipe, readout])
+                try:
+                    if ex == "legacy":
+                        ds3 = _legacy_dataset(pyxel.observation_mode(obs, det, pipe))
+                    else:
+                        ds3 = bucket_dataset(pyxel.run_mode(obs, det, pipe, with_inherited_coords=True))
+                        if ex == "seq":
+                            ds3 = ds3.load()
+                    if ds3 is not None:
+                        compare_all(ds3, skip_poisoned=False, base=newc,
+                                    tag="second call of the same Observation after the caller changed the configuration")
+                except Exception as e:  # noqa: BLE001
+                    bad("raised", f"the second call raised {type(e).__name__}: {str(e)[:300]}", stage="rerun")
+                check_caller("after the second call")
             if poison is not None and ok:
                 # the same caller's objects, the failure gone: every run must still equal its standalone exposure
                 probes.FAULT.clear()
